@@ -2,6 +2,7 @@ package main
 
 import (
 	"fmt"
+	"math/big"
 	"go/types"
 	"regexp"
 	"sort"
@@ -289,6 +290,9 @@ func (c *Check) SuccessSites(fn *ssa.Function, idx int, success string) []RetSit
 // Gate records the obligation "target is gated by any-of pats".
 func (c *Check) Gate(fa *FuncAnalysis, target ssa.Instruction, construct, desc string, pats ...LitPat) bool {
 	ok, path := fa.Gated(target, pats...)
+	if c.Tier == "thorough" {
+		c.countPaths(fa, target, pats)
+	}
 	if ok && !fa.Reachable(target) {
 		// a gate that can never be passed (constant-false condition) is not the property holding: the guarded behaviour is gone
 		return c.Req(false, c.p.Name(fa.Fn), c.p.InstrPos(target), construct, desc, "the gated statement is unreachable (its guard is constantly false)")
@@ -354,4 +358,75 @@ func (p *Prog) sentinelError(t *Term) bool {
 		}
 	}
 	return n == 1 && good == 1
+}
+
+// countPaths (thorough tier): the number of acyclic entry→target paths of the function's CFG
+// (back edges removed) and how many of them cross a good edge — by dynamic programming over the
+// DAG, so the count is exact without enumerating. A gate holds iff the two numbers are equal on
+// the acyclic skeleton; the numbers go to the evidence as the size of the space the rule covers.
+func (c *Check) countPaths(fa *FuncAnalysis, target ssa.Instruction, pats []LitPat) {
+	fn := fa.Fn
+	if len(fn.Blocks) == 0 {
+		return
+	}
+	tb := target.Block()
+	good := func(b *ssa.BasicBlock, si int) bool {
+		for _, l := range fa.EdgeLits(b, si) {
+			for _, p := range pats {
+				if p(l) {
+					return true
+				}
+			}
+			for _, p := range fa.p.AlwaysCut {
+				if p(l) {
+					return true
+				}
+			}
+		}
+		return false
+	}
+	// total[b], clean[b]: number of acyclic paths entry→b (all / crossing no good edge)
+	type cnt struct{ total, clean *big.Int }
+	memo := map[*ssa.BasicBlock]*cnt{}
+	onStack := map[*ssa.BasicBlock]bool{}
+	var rec func(b *ssa.BasicBlock) *cnt
+	rec = func(b *ssa.BasicBlock) *cnt {
+		if m, ok := memo[b]; ok {
+			return m
+		}
+		r := &cnt{big.NewInt(0), big.NewInt(0)}
+		if b == fn.Blocks[0] {
+			r.total.SetInt64(1)
+			r.clean.SetInt64(1)
+			memo[b] = r
+			return r
+		}
+		onStack[b] = true
+		for _, pr := range b.Preds {
+			if onStack[pr] || b.Dominates(pr) {
+				continue // back edge
+			}
+			pc := rec(pr)
+			for si, s := range pr.Succs {
+				if s != b {
+					continue
+				}
+				r.total.Add(r.total, pc.total)
+				if !good(pr, si) {
+					r.clean.Add(r.clean, pc.clean)
+				}
+			}
+		}
+		delete(onStack, b)
+		memo[b] = r
+		return r
+	}
+	r := rec(tb)
+	if c.paths == nil {
+		c.paths = big.NewInt(0)
+		c.pathsGated = big.NewInt(0)
+	}
+	c.paths.Add(c.paths, r.total)
+	c.pathsGated.Add(c.pathsGated, new(big.Int).Sub(r.total, r.clean))
+	c.pathTargets++
 }
